@@ -30,6 +30,7 @@ PROGRAMS = {
     'ok_only': 'a:\nb:\naddi x1, x0, 5\nc:\nli x6, K',
     'nolabels': 'addi x1, x0, 5\nli x6, K\ndw 7',
     'needs_i': 'a:\ninclude part.asm\nj a',
+    'nested_i': 'a:\ninclude drivers/uart.asm\nj a',
     'range_long': 'start:\naddi x1, x0, K\nj start\nend:\ndw 7\ndw 8',
     'labels_only': 'a:\nb:',
 }
@@ -43,7 +44,19 @@ HISTORIES = {
 }
 INC = {'/proj/src/inc/part.asm': 'part:\naddi x3, x0, K\ndw part',
        '/proj/run/zinc/part.asm': 'zpart:\naddi x3, x0, K',
-       '/proj/run/ainc/part.asm': 'apart:\naddi x4, x0, K\naddi x0, x0, 0'}
+       '/proj/run/ainc/part.asm': 'apart:\naddi x4, x0, K\naddi x0, x0, 0',
+       # reached through -i ../vendor; its nested include names a sibling that also exists next to main.asm
+       '/proj/vendor/drivers/uart.asm': 'uart:\ninclude regs.asm\naddi x3, x0, K',
+       '/proj/vendor/drivers/regs.asm': 'REG = 4\naddi x4, x0, REG',
+       '/proj/src/regs.asm': 'REG = 5\naddi x5, x0, REG\ndw 1'}
+# (program, option set) -> the program with its includes spliced in by hand (the documented search decides which file)
+SPLICED = {
+    ('nested_i', 'i_vendor'): 'a:\nuart:\nREG = 4\naddi x4, x0, REG\naddi x3, x0, K\nj a',
+    ('included', 'o'): 'a:\npart:\naddi x3, x0, K\ndw part\nj a',
+    ('included', 'o_l'): 'a:\npart:\naddi x3, x0, K\ndw part\nj a',
+    ('needs_i', 'i_dir'): 'a:\npart:\naddi x3, x0, K\ndw part\nj a',
+    ('needs_i', 'i_two'): 'a:\nzpart:\naddi x3, x0, K\nj a',
+}
 
 ARGVS = {
     'default': [],
@@ -57,6 +70,7 @@ ARGVS = {
     'defs_v': ['--include-definitions', '-v', '-o', 'out.bin', '-l', 'labels.txt'],
     'hex_sym': ['--hex-offset', '@H@', '-o', 'out.bin'],
     'hex_sym_l': ['-l', 'labels.txt', '--hex-offset', '@H@'],
+    'i_vendor': ['-i', '../vendor', '-o', 'out.bin', '-l', 'labels.txt'],
     'i_two': ['-i', 'zinc', '-i', 'ainc', '-o', 'out.bin', '-l', 'labels.txt'],
     'i_two_dup': ['-i', 'zinc', '-i', '../run/ainc', '-i', 'zinc'],
 }
@@ -81,7 +95,7 @@ class FakeIntelHex(types.ModuleType):
         return 0
 
 
-def cli_task(prog, argv_name):
+def cli_task(prog, argv_name, prop='C17'):
     tag = 'cli:%s:%s' % (prog, argv_name)
     progs = HISTORIES[prog[5:]] if prog.startswith('hist:') else (prog,)
     res = TaskResult(tag)
@@ -101,7 +115,7 @@ def cli_task(prog, argv_name):
 
     def fn(p):
         v = vfsmod.VFS('/proj/run')
-        for d in ('/proj/run', '/proj/src', '/proj/src/inc', '/proj/run/zinc', '/proj/run/ainc'):
+        for d in ('/proj/run', '/proj/src', '/proj/src/inc', '/proj/run/zinc', '/proj/run/ainc', '/proj/vendor', '/proj/vendor/drivers'):
             v.add_dir(d)
         for pth, data in OLD.items():
             (v.add_bytes if isinstance(data, bytes) else v.add_text)(pth, data)
@@ -167,11 +181,11 @@ def cli_task(prog, argv_name):
             what = 'the run failed (%s) after touching %s' % (got.get('error', '')[:100], sym_writes or log)
             if not ok:
                 site = dict(harness='cli', kind='failed-run-wrote-files', argv=argv_name)
-                kn = common.match_known(common.load_known('C17'), site)
+                kn = common.match_known(common.load_known(prop), site)
                 if kn:
                     res['known'].append(dict(id=kn.get('id'), what=kn.get('what')))
                 else:
-                    path = common.write_replay('C17', tag + '_fail', dict(kind='cli', property='C17', setting=setting, source=[PROGRAMS[q] for q in progs], what=what))
+                    path = common.write_replay(prop, tag + '_fail', dict(kind='cli', property=prop, setting=setting, source=[PROGRAMS[q] for q in progs], what=what))
                     res['violations'].append(dict(site, setting=setting, what=what, replay=path))
             res.oblig(ok)
             continue
@@ -185,6 +199,19 @@ def cli_task(prog, argv_name):
         if f is None or f.kind != 'written' or len(f.content) != 1 or \
                 not _same_bytes(f.content[0], out):
             probs.append('-o file is not exactly the assembled bytes')
+        # programs with includes: the bytes are those of the hand-spliced program (assembled by a fresh copy of the module)
+        sp = SPLICED.get((prog, argv_name))
+        if sp is not None and out is not None:
+            fresh = asmshim.load_asm_shimmed()
+            vfsmod.VFS('/proj/run').install(fresh)
+            try:
+                ref = fresh.assemble(sp.replace('K', '@K@').replace('REG', 'REG'), compress=bool(p.notes['comp']))
+                if not _same_bytes(ref, out):
+                    probs.append('the output is not the program with its includes spliced in (%r)' % sp)
+            except core.EngineLimit:
+                raise
+            except Exception as e:      # noqa
+                probs.append('the hand-spliced program is refused (%s) but the run succeeded' % type(e).__name__)
         # the -i directories reach the assembler in the order given (duplicates may be dropped)
         given = [v.abspath(args[i + 1]) for i, a_ in enumerate(args) if a_ == '-i']
         dedup = lambda xs: [x for i, x in enumerate(xs) if x not in xs[:i]]
@@ -212,7 +239,7 @@ def cli_task(prog, argv_name):
         if not set(sym_writes) <= expected_writes:      # contents are checked above; a stray file is an error
             probs.append('files written %r, expected %r' % (sym_writes, sorted(expected_writes)))
         if probs:
-            path = common.write_replay('C17', tag + '_ok', dict(kind='cli', property='C17', setting=setting, source=[PROGRAMS[q] for q in progs], what='; '.join(probs)))
+            path = common.write_replay(prop, tag + '_ok', dict(kind='cli', property=prop, setting=setting, source=[PROGRAMS[q] for q in progs], what='; '.join(probs)))
             res['violations'].append(dict(harness='cli', kind='wrong-output', setting=setting, what='; '.join(probs), replay=path))
         res.oblig(not probs)
     if n_ok + n_fail == 0:
@@ -270,7 +297,7 @@ def _real_cli(real, progs, argv, kv):
     old_cwd, old_argv = os.getcwd(), sys.argv
     log = []
     try:
-        for d in ('/proj/run', '/proj/src/inc', '/proj/run/zinc', '/proj/run/ainc'):
+        for d in ('/proj/run', '/proj/src/inc', '/proj/run/zinc', '/proj/run/ainc', '/proj/vendor/drivers'):
             os.makedirs(root + d, exist_ok=True)
         for pth, data in OLD.items():
             with open(root + pth, 'wb' if isinstance(data, bytes) else 'w') as f:
